@@ -251,6 +251,10 @@ func (fr *frame) scanCallMods(m *loopMods, info *types.Info, call *ast.CallExpr,
 					m.allocs = true
 					m.addElem(sl.Elem())
 				}
+			case "copy":
+				if sl, ok := info.TypeOf(call.Args[0]).Underlying().(*types.Slice); ok {
+					m.addElem(sl.Elem())
+				}
 			case "make":
 				m.allocs = true
 				switch u := info.TypeOf(call.Args[0]).Underlying().(type) {
